@@ -184,6 +184,41 @@ func genC11Inv(c *Cfg) func(t *rapid.T) c11InvCase {
 			out.Kind = "bad-gen"
 			out.Gen = rapid.SampledFrom([]string{"cobol", "go:nosuchoption", "java:", ":", "go:slim=", "py:asyncio,bogus", ""}).Draw(t, "badgen")
 			out.MustFail = out.Gen != "java:" && out.Gen != "go:slim="
+		case 9:
+			// a constant / default value whose shape does not fit its type
+			out.Kind = "value-shape-mismatch"
+			shapes := map[string][]string{ // type -> values that cannot be given to it
+				"string":          {"true", "1", "1.5", "[1]", "[\"a\"]", "{\"a\": 1}", "[]", "{}"},
+				"binary":          {"1", "[1]", "{}"},
+				"list<i32>":       {"true", "1", "1.5", "\"s\"", "{\"a\": 1}", "{}", "ZzShapeE.B", "[\"a\"]", "[[1]]"},
+				"set<string>":     {"1", "\"s\"", "[1]", "{\"a\": 1}", "{}", "ZzShapeE.B"},
+				"map<string,i32>": {"true", "1", "\"s\"", "[1]", "[]", "ZzShapeE.B", "{1: 1}", "{\"a\": \"b\"}"},
+				"ZzShapeP":        {"true", "1", "1.5", "\"s\"", "[1]", "[]", "ZzShapeE.B", "{\"s\": 1}", "{\"l\": [\"x\"]}"},
+				"ZzShapeU":        {"1", "\"s\"", "[1]"},
+				"ZzShapeX":        {"1", "\"s\"", "[]"},
+				"ZzShapeE":        {"true", "1.5", "\"s\"", "[1]", "{\"a\": 1}", "[]", "{}"},
+				"ZzShapeT":        {"1", "{}", "[[\"a\"]]"},
+				"list<ZzShapeP>":  {"[1]", "[{\"s\": 2}]", "{}"},
+			}
+			var types []string
+			for k := range shapes {
+				types = append(types, k)
+			}
+			types = uniq(types)
+			ty := rapid.SampledFrom(types).Draw(t, "shape-type")
+			val := rapid.SampledFrom(shapes[ty]).Draw(t, "shape-value")
+			decls := "\nenum ZzShapeE { A, B }\nstruct ZzShapeP { 1: i32 x, 2: string s, 3: list<i32> l }\nunion ZzShapeU { 1: i32 x, 2: string s }\nexception ZzShapeX { 1: string why }\ntypedef list<list<i32>> ZzShapeT\n"
+			switch rapid.IntRange(0, 3).Draw(t, "shape-pos") {
+			case 0:
+				out.Append = decls + fmt.Sprintf("const %s ZZ_SHAPE = %s\n", ty, val)
+			case 1:
+				out.Append = decls + fmt.Sprintf("struct ZzShapeH { 1: i32 ok = 1, 2: optional %s f = %s }\n", ty, val)
+			case 2:
+				out.Append = decls + fmt.Sprintf("service ZzShapeSvc { void f(1: %s a = %s) }\n", ty, val)
+			default:
+				out.Append = decls + fmt.Sprintf("const map<string, list<%s>> ZZ_SHAPE = {\"k\": [%s]}\n", ty, val)
+			}
+			out.MustFail = true
 		case 5:
 			out.Kind = "self-include"
 			out.Append = fmt.Sprintf("\ninclude \"%s.frugal\"\n", pc.P.Root().Name)
@@ -271,7 +306,7 @@ func classifyC11Inv(c c11InvCase) ev.Class {
 }
 
 func hasGoTrace(out string) string {
-	for _, marker := range []string{"goroutine ", "fatal error:", "panic:", "runtime error", "stack overflow", "[signal "} {
+	for _, marker := range []string{"goroutine ", "fatal error:", "panic:", "runtime error", "stack overflow", "[signal ", "interface conversion:"} {
 		if strings.Contains(out, marker) {
 			return marker
 		}
